@@ -223,7 +223,7 @@ impl Check for C03 {
             let op = if c.session { Op::SessionText { text } } else { Op::Execute { lang: "en".into(), text } };
             events.push(Event { actor: who as u8, op, clock });
         }
-        crate::gen::session_variants(&mut r, &mut events, 4, 10, 0);
+        crate::gen::session_variants(&mut r, &mut events, 4, 10, 8);
         Trace { check: "C03".into(), seed, host_tz: env.host_tz.clone(), salt: r.next(), mode: if faults { "faults".into() } else { "fault-free".into() }, events }
     }
 
